@@ -38,7 +38,7 @@ func init() {
 		Doc: "decoded slices are not nil-started accumulators (empty ≠ null on re-encode)", Run: runDecNilAcc})
 	reg(&core.RuleInfo{Name: "FRESH-ITER", Props: []string{"C02", "C03", "C10"}, Engine: "ALIAS", Floor: 1, Confirmed: 2,
 		Doc: "a container stored per loop iteration into another container is allocated in that iteration (no entry shares a mutable set with another)", Run: runFreshIter})
-	reg(&core.RuleInfo{Name: "ALL-KEYS", Props: []string{"C03", "C16", "C05"}, Engine: "CFG", Floor: 3, Confirmed: 5,
+	reg(&core.RuleInfo{Name: "ALL-KEYS", Props: []string{"C03", "C04", "C16", "C05"}, Engine: "CFG", Floor: 3, Confirmed: 5,
 		Doc: "loops that maintain the cache's index / registry per key run over every key (no early exit)", Run: runAllKeys})
 	reg(&core.RuleInfo{Name: "DROP-EMPTY", Props: []string{"C05", "C07", "C03"}, Engine: "INT", Floor: 2, Confirmed: 2,
 		Doc: "an entry holding a nested set is dropped as a whole only when that set is empty", Run: runDropEmpty})
